@@ -8,7 +8,8 @@
 (***************************************************************************)
 EXTENDS MatricesOps, Randomization, TLC
 
-CONSTANTS NS, NA, NE, PDs, Gammas, RewSet, Grid, NumGadgets, Tols
+CONSTANTS NS, NA, NE, PDs, Gammas, RewSet, Grid, NumGadgets, Tols,
+          Bug    \* "none" | "max_before_abs" (only the largest row sum is compared with one): anti-vacuity
 
 GammaM == {<<1, 2>>, <<3, 4>>, <<1, 1>>}
 RewM == {-2, 0, 1, 3}
@@ -38,7 +39,10 @@ Init == /\ m \in Gadgets /\ V \in [S -> Grid] /\ tol \in Tols
         /\ phase = "given" /\ outcome = "none"
 
 Build == /\ phase = "given"
-         /\ outcome' = IF SomeDeviates(m, tol[1], tol[2]) THEN "error" ELSE "ok"
+         /\ outcome' = IF Bug = "max_before_abs"
+                        THEN (LET mx == MaxTo([k \in 1..(NS * NA) |-> RowSum(m, ((k - 1) \div NA) + 1, ((k - 1) % NA) + 1)], NS * NA)
+                              IN IF Abs(mx - m.PD) * tol[2] > tol[1] * m.PD THEN "error" ELSE "ok")
+                        ELSE IF SomeDeviates(m, tol[1], tol[2]) THEN "error" ELSE "ok"
          /\ phase' = "built"
          /\ UNCHANGED <<m, V, tol>>
 
